@@ -22,6 +22,7 @@ import (
 	"github.com/wi1dcard/fingerproxy/pkg/hack"
 	"github.com/wi1dcard/fingerproxy/pkg/http2"
 	"github.com/wi1dcard/fingerproxy/pkg/metadata"
+	"github.com/wi1dcard/fingerproxy/pkg/vhook"
 )
 
 const defaultMetricsPrefix = "fingerproxy"
@@ -106,6 +107,7 @@ func (server *Server) serveConn(conn net.Conn) {
 	}
 
 	server.vlogf("client hello (%s): %x", conn.RemoteAddr(), rec)
+	vhook.Point("proxyserver.serveConn.handshook", conn)
 
 	cs := tlsConn.ConnectionState()
 
@@ -122,6 +124,7 @@ func (server *Server) serveConn(conn net.Conn) {
 		})
 	} else {
 		ctx, done := context.WithCancel(context.Background())
+		vhook.Point("proxyserver.serveConn.beforeSend", conn)
 		server.http1ConnChannelListener.SendToChannel(&hack.TLSClientHelloConn{
 			Done:              done,
 			Conn:              tlsConn,
@@ -130,6 +133,7 @@ func (server *Server) serveConn(conn net.Conn) {
 		// wait for the connection to be served by HTTP/1.1 server
 		<-ctx.Done()
 	}
+	vhook.Point("proxyserver.serveConn.served", conn)
 
 	server.metricsRequestsTotalInc("1", cs.NegotiatedProtocol)
 }
@@ -213,8 +217,11 @@ func (server *Server) Serve(ln net.Listener) error {
 	go func() {
 		<-server.ctx.Done()
 		server.vlogf("server %s is shutting down...", ln.Addr())
+		vhook.Point("proxyserver.Serve.beforeInShutdown", server)
 		server.inShutdown.Store(true)
+		vhook.Point("proxyserver.Serve.beforeShutdown", server)
 		server.HTTPServer.Shutdown(context.Background())
+		vhook.Point("proxyserver.Serve.beforeLnClose", server)
 		ln.Close()
 	}()
 
